@@ -27,13 +27,41 @@ use crate::core::{Tier, World};
 
 /// Seam for std's `RandomState` keys: std resolves `getrandom` as a weak symbol and documents that
 /// it may be interposed "to disable randomness for consistency". Every run executes on a fresh
-/// thread, so the thread-local hash keys start from the same value and evolve identically.
+/// thread, so the thread-local hash keys start from the same value and evolve identically. The value
+/// they start from is part of the scenario (`hash_seed`, 0 = the legacy fixed pattern): the iteration
+/// order of the product's `HashMap`s (e.g. the order in which an agent registers its items, hence the
+/// numeric ids of its lanes and stores) is a source of nondeterminism that varies per run and replays.
 #[no_mangle]
 pub unsafe extern "C" fn getrandom(buf: *mut u8, len: usize, _flags: u32) -> isize {
-    for i in 0..len {
-        *buf.add(i) = (i as u8).wrapping_mul(37).wrapping_add(11);
+    let seed = HASH_SEED.try_with(|c| c.get()).unwrap_or(0);
+    if seed == 0 {
+        for i in 0..len {
+            *buf.add(i) = (i as u8).wrapping_mul(37).wrapping_add(11);
+        }
+    } else {
+        let mut x = seed;
+        for i in 0..len {
+            if i % 8 == 0 {
+                // splitmix64
+                x = x.wrapping_add(0x9E37_79B9_7F4A_7C15);
+            }
+            let mut z = x;
+            z = (z ^ (z >> 30)).wrapping_mul(0xBF58_476D_1CE4_E5B9);
+            z = (z ^ (z >> 27)).wrapping_mul(0x94D0_49BB_1331_11EB);
+            z ^= z >> 31;
+            *buf.add(i) = (z >> ((i % 8) * 8)) as u8;
+        }
     }
     len as isize
+}
+
+thread_local! {
+    static HASH_SEED: std::cell::Cell<u64> = const { std::cell::Cell::new(0) };
+}
+
+/// Must be called first thing on the run's fresh thread (before any `HashMap` is created there).
+pub fn set_thread_hash_seed(seed: u64) {
+    HASH_SEED.with(|c| c.set(seed));
 }
 
 fn usage() -> ! {
